@@ -182,13 +182,13 @@ def check_default_method(ctx, M, y, p, g, w, cy, cp, cg, cw):
 GEN_RATES = ["true_positive_rate", "true_negative_rate", "false_positive_rate", "false_negative_rate", "selection_rate"]
 
 
-def check_genrates(ctx, M, y, p, g, w, cy, cp, cg, cw, forwarded=(None,)):
+def check_genrates(ctx, M, y, p, g, w, cy, cp, cg, cw, forwarded=(None,), enc_label=None):
     """forwarded: values of the base metric's own `pos_label` argument passed through the generated function (None = not passed)."""
     kw = {} if cw is None else {"sample_weight": cw}
     for base in GEN_RATES:
         for pl in forwarded:
             vals, overall = _group_metric(_rate_fn(base, y, p, w, 1 if pl is None else pl), y, p, g, w)
-            fkw = {} if pl is None else {"pos_label": pl}
+            fkw = {} if pl is None else {"pos_label": pl if enc_label is None else enc_label(pl)}  # label as encoded in the call's data
             for tr in ("difference", "ratio"):
                 for method in METHODS:
                     got = getattr(M, "%s_%s" % (base, tr))(cy, cp, sensitive_features=cg, method=method, **kw, **fkw)
@@ -243,6 +243,13 @@ def run_case(cls, key, seed, ctx):
     if cls == "rand_named":
         y, p, g, w = _rand_dataset(rng)
         cy, cp, cg, cw = _wrap(rng, y, p, g, w)
+        enc_label = None
+        if rng.random() < 0.25:
+            # the documented {-1, 1} encoding: 1 is still the positive / selected class, so every reference value is unchanged
+            enc = lambda v: ([2 * int(x) - 1 for x in v] if isinstance(v, list) else 2 * v - 1)  # noqa: E731
+            cy, cp = enc(cy), enc(cp)
+            enc_label = lambda lab: 2 * lab - 1  # noqa: E731
+            ctx.ev("minus_one_plus_one_encoded_cases")
         if rng.random() < 0.3:
             # two sensitive columns: the groups are the observed value tuples (intersections)
             import pandas as pd
@@ -254,7 +261,7 @@ def run_case(cls, key, seed, ctx):
         ctx.mark(_sig(cls, y, p, g, w), len(set(g)) >= 2, sample={"y_true": y, "y_pred": p, "groups": g, "weights": w})
         check_named(ctx, M, y, p, g, w, cy, cp, cg, cw)
         if rng.random() < 0.4:
-            check_genrates(ctx, M, y, p, g, w, cy, cp, cg, cw, forwarded=(None, 0, 1))
+            check_genrates(ctx, M, y, p, g, w, cy, cp, cg, cw, forwarded=(None, int(rng.integers(0, 2))), enc_label=enc_label)
         check_default_method(ctx, M, y, p, g, w, cy, cp, cg, cw)
         if rng.random() < 0.4:
             # evaluation loops refill the same buffers: the SAME array objects, new contents, must give the new data's values
@@ -343,6 +350,15 @@ _FORWARDED = {"accuracy_score": [{}, {"normalize": False}, {"normalize": True}],
               "f1_score": [{}, {"pos_label": 0}], "mean_squared_error": [{}], "log_loss": [{}, {"normalize": False}]}
 
 
+def plain_mae(y_true, y_pred):
+    return float(np.mean(np.abs(np.asarray(y_true, dtype=float) - np.asarray(y_pred, dtype=float))))
+
+
+def wmae(y_true, y_pred, sample_weight=None):
+    d = np.abs(np.asarray(y_true, dtype=float) - np.asarray(y_pred, dtype=float))
+    return float(np.average(d, weights=None if sample_weight is None else np.asarray(sample_weight, dtype=float)))
+
+
 def wpow_err(y_true, y_pred, sample_weight=None, scale=None, beta=1.0):
     """Custom metric: weighted mean of |y-p|^beta, each row additionally scaled by a second sample parameter."""
     d = np.abs(np.asarray(y_true, dtype=float) - np.asarray(y_pred, dtype=float)) ** beta
@@ -398,3 +414,15 @@ def _run_derived(ctx, M, rng):
     ctx.ev("derived_values_compared")
     ctx.check(close(got, eq, 1e-12, 1e-15), "derived_metric_vs_metricframe_mismatch:%s" % tr, got=repr(got), metricframe=repr(eq),
               method=method, groups=g)
+    # derived metrics made with the DEFAULT sample_param_names, one of them from a metric that takes no sample_weight at all,
+    # created one after the other in the same process: each must still slice the weights per group
+    if w is not None:
+        M.make_derived_metric(metric=plain_mae, transform="group_max")(yy, pp, sensitive_features=g)
+        dm2 = M.make_derived_metric(metric=wmae, transform=tr)
+        kw2 = {"method": method} if tr in ("difference", "ratio") else {}
+        got2 = dm2(yy, pp, sensitive_features=g, sample_weight=w, **kw2)
+        vals2 = [wmae(_sub(yy, r), _sub(pp, r), _sub(w, r)) for r in rows.values()]
+        cands2 = _transform(vals2, wmae(yy, pp, w), tr, method)
+        ctx.ev("derived_values_compared")
+        ctx.check(np.ndim(got2) == 0 and _accept(got2, cands2, 1e-10), "derived_metric_with_default_sample_param_names_vs_rows_mismatch:%s" % tr,
+                  method=method, y_true=yy, y_pred=pp, groups=g, sample_weight=w, got=repr(got2), expected=cands2)
